@@ -9,5 +9,5 @@ CONSTANTS
   OutReqs = {"r1", "r2", "r3"}
   QueueCap = 1
   Devs = {}
-INVARIANTS OneVerdictPerKey AcceptJustified ConnIdIffAccepted NoDoubleReceive DeliveredExactly HeldWithinLimit AllReturnedWhenQuiet AllReturnedAfterStop
+INVARIANTS OneVerdictPerKey AcceptJustified ConnIdIffAccepted NoDoubleReceive DeliveredExactly HeldWithinLimit TransfersWithinLimit AllReturnedWhenQuiet AllReturnedAfterStop
 CHECK_DEADLOCK FALSE
